@@ -322,3 +322,36 @@ V('C16-getitem-abs-check', 'C16', BA, "            if item < -len(self) or item 
 V('C16-getitem-negative-not-normalised', 'C16', BA, "                if item < 0:\n                    item += len(self)\n", "", rule='C16.e')
 V('C16-take-copies-sindex', ['C16'], BA, "        return self.__class__(self.data.take(indices), dtype=self.dtype)", "        result = self.__class__(self.data.take(indices), dtype=self.dtype)\n        result._sindex = self._sindex\n        return result", rule='C16.c')
 V('C16-silent-type-self', 'C16', BA, "                return self.__class__(self.data[item], dtype=self.dtype)", "                return type(self)(self.data[item], dtype=self.dtype)", expect='silent')
+
+# ------------------------------------------------------------------------------------------------ C01
+LN = 'spatialpandas/geometry/line.py'
+V('C01-y-from-even-index', 'C01', IX, "        y = flat_values[k + 1]\n        if x0 <= x <= x1 and y0 <= y <= y1:\n            vert_in_rect = True", "        y = flat_values[k]\n        if x0 <= x <= x1 and y0 <= y <= y1:\n            vert_in_rect = True", rule='C01.a')
+V('C01-offsets1-for-offsets2', 'C01', IX, "polygon_offsets[:-1], polygon_offsets[1:], offsets2, element_result", "polygon_offsets[:-1], polygon_offsets[1:], offsets1, element_result", rule='C01.a')
+V('C01-wrapper-box-args-swapped', 'C01', 'spatialpandas/geometry/polygon.py', "            float(x0), float(y0), float(x1), float(y1),\n            self.buffer_values, start_offsets0, stop_offsets0, offsets1, result\n        )\n        return result\n", "            float(x0), float(x1), float(y0), float(y1),\n            self.buffer_values, start_offsets0, stop_offsets0, offsets1, result\n        )\n        return result\n", rule='C01.a')
+V('C01-segment-loop-overrun', 'C01', IX, "    for j in range(start, stop - 2, 2):\n        ex0 = flat_values[j]", "    for j in range(start, stop, 2):\n        ex0 = flat_values[j]", rule='C01.a')
+V('C01-box-edge-swapped-axes', 'C01', IX, "        if segments_intersect(ex0, ey0, ex1, ey1, x0, y1, x1, y1):\n            segment_intersects = True\n            break\n\n        # bottom", "        if segments_intersect(ex0, ey0, ex1, ey1, y1, x0, x1, y1):\n            segment_intersects = True\n            break\n\n        # bottom", rule='C01.a')
+V('C01-bbox-reject-axis-mix', 'C01', IX, "    if bounds[0] > x1 or bounds[1] > y1 or bounds[2] < x0 or bounds[3] < y0:\n        # bounds outside of rect, does not intersect\n        return\n\n    if ((bounds[0] >= x0 and bounds[2] <= x1) or\n            (bounds[1] >= y0 and bounds[3] <= y1)):\n        # bounds is fully contained in rect when both are projected onto the\n        # x or y axis\n        result[i] = True\n        return\n\n    # Check for vertices in rect",
+  "    if bounds[0] > x1 or bounds[1] > x1 or bounds[2] < x0 or bounds[3] < y0:\n        # bounds outside of rect, does not intersect\n        return\n\n    if ((bounds[0] >= x0 and bounds[2] <= x1) or\n            (bounds[1] >= y0 and bounds[3] <= y1)):\n        # bounds is fully contained in rect when both are projected onto the\n        # x or y axis\n        result[i] = True\n        return\n\n    # Check for vertices in rect", rule='C01')
+V('C01-cross-product-dimension', 'C01', 'spatialpandas/geometry/_algorithms/orientation.py', "    ab_x_ac = (ab_x * ac_y) - (ab_y * ac_x)", "    ab_x_ac = (ab_x * ac_x) - (ab_y * ac_y)", rule='C01.a')
+V('C01-polygon-flat-segment-loop', 'C01', IX, "    for j in range(start0, stop0):\n        for k in range(offsets1[j], offsets1[j + 1] - 2, 2):", "    for j in range(1):\n        for k in range(start1, stop1 - 2, 2):", rule='C01.a')
+V('C01-no-reorient-lines', 'C01', IX, "    if x1 < x0:\n        x0, x1 = x1, x0\n    if y1 < y0:\n        y0, y1, = y1, y0\n\n    if x0 == x1 or y0 == y1:\n        # Zero width/height rect does not intersect with anything\n        return\n\n    for i in range(n):\n        _perform_line_intersect_bounds(", "    if y1 < y0:\n        y0, y1, = y1, y0\n\n    if x0 == x1 or y0 == y1:\n        # Zero width/height rect does not intersect with anything\n        return\n\n    for i in range(n):\n        _perform_line_intersect_bounds(", rule='C01.b')
+V('C01-point-no-reorient', 'C01', PT, "        x0, y0, x1, y1 = bounds\n        if x1 < x0:\n            x0, x1 = x1, x0\n        if y1 < y0:\n            y0, y1 = y1, y0\n        outside = (np.isnan(self.x) or", "        x0, y0, x1, y1 = bounds\n        if x1 < x0:\n            x0, x1 = x1, x0\n        outside = (np.isnan(self.x) or", rule='C01')
+V('C01-inds-only-start', 'C01', LN, "        if inds is not None:\n            start_offsets0 = start_offsets0[inds]\n            stop_offsets0 = stop_offsets0[inds]", "        if inds is not None:\n            start_offsets0 = start_offsets0[inds]", rule='C01.c')
+V('C01-flat-values-into-kernel', ['C01', 'C16'], LN, "            float(x0), float(y0), float(x1), float(y1),\n            self.buffer_values, start_offsets0, stop_offsets0, result\n        )\n        return result", "            float(x0), float(y0), float(x1), float(y1),\n            self.flat_values, start_offsets0, stop_offsets0, result\n        )\n        return result", rule=None, rules={'C01': 'C01', 'C16': 'C16.b'})
+V('C01-multilines-all-parts', 'C01', IX, "        result[i] = element_result.any()\n\n\n@ngjit\ndef _perform_polygon", "        result[i] = element_result.all()\n\n\n@ngjit\ndef _perform_polygon", rule='C01.d')
+V('C01-multipoint-strict', 'C01', IX, "            y = flat_values[j + 1]\n            if x0 <= x <= x1 and y0 <= y <= y1:\n                point_in_rect = True", "            y = flat_values[j + 1]\n            if x0 < x <= x1 and y0 <= y <= y1:\n                point_in_rect = True", rule='C01.e')
+V('C01-point-strict', 'C01', PT, "                   self.x < x0 or self.x > x1 or", "                   self.x <= x0 or self.x > x1 or", rule='C01')
+V('C01-pointarray-raw-values', ['C01', 'C17'], PT, "        xs = self.x\n        ys = self.y\n        if inds is not None:", "        xs = self.flat_values[0::2]\n        ys = self.flat_values[1::2]\n        if inds is not None:", rule=None, rules={'C01': 'C01', 'C17': 'C17.a'})
+V('C01-1d-overlap-strict', 'C01', IX, "    return max(ax0, bx0) <= min(ax1, bx1)", "    return max(ax0, bx0) < min(ax1, bx1)", rule='C01.e')
+V('C01-bbox-reject-ge', 'C01', IX, "    if bounds[0] > x1 or bounds[1] > y1 or bounds[2] < x0 or bounds[3] < y0:\n        # bounds outside of rect, does not intersect\n        return\n\n    if ((bounds[0] >= x0 and bounds[2] <= x1) or\n            (bounds[1] >= y0 and bounds[3] <= y1)):\n        # bounds is fully contained in rect when both are projected onto the\n        # x or y axis\n        result[i] = True\n        return\n\n    # Check for vertices in rect",
+  "    if bounds[0] >= x1 or bounds[1] > y1 or bounds[2] < x0 or bounds[3] < y0:\n        # bounds outside of rect, does not intersect\n        return\n\n    if ((bounds[0] >= x0 and bounds[2] <= x1) or\n            (bounds[1] >= y0 and bounds[3] <= y1)):\n        # bounds is fully contained in rect when both are projected onto the\n        # x or y axis\n        result[i] = True\n        return\n\n    # Check for vertices in rect", rule='C01.f')
+V('C01-shortcut-weaker', 'C01', IX, "    if ((bounds[0] >= x0 and bounds[2] <= x1) or\n            (bounds[1] >= y0 and bounds[3] <= y1)):\n        # bounds is fully contained in rect when both are projected onto the\n        # x or y axis\n        result[i] = True\n        return\n\n    # Check for vertices in rect", "    if ((bounds[0] >= x0 or bounds[2] <= x1) or\n            (bounds[1] >= y0 and bounds[3] <= y1)):\n        # bounds is fully contained in rect when both are projected onto the\n        # x or y axis\n        result[i] = True\n        return\n\n    # Check for vertices in rect", rule='C01.g')
+V('C01-shortcut-demorgan-nan', ['C01', 'C17'], IX, "    if ((bounds[0] >= x0 and bounds[2] <= x1) or\n            (bounds[1] >= y0 and bounds[3] <= y1)):\n        # bounds is fully contained in rect when both are projected onto the\n        # x or y axis\n        result[i] = True\n        return\n\n    # Check for vertices in rect",
+  "    if not ((bounds[0] < x0 or bounds[2] > x1) and\n            (bounds[1] < y0 or bounds[3] > y1)):\n        # bounds is fully contained in rect when both are projected onto the\n        # x or y axis\n        result[i] = True\n        return\n\n    # Check for vertices in rect", rule=None, rules={'C01': 'C01.d', 'C17': 'C17'})
+V('C01-segment-prefilter-unsound', 'C01', IX, "        ey1 = flat_values[j + 3]\n\n        # top\n        if segments_intersect(ex0, ey0, ex1, ey1, x0, y1, x1, y1):\n            segment_intersects = True\n            break\n\n        # bottom\n        if segments_intersect(ex0, ey0, ex1, ey1, x0, y0, x1, y0):\n            segment_intersects = True\n            break\n\n        # left\n        if segments_intersect(ex0, ey0, ex1, ey1, x0, y0, x0, y1):\n            segment_intersects = True\n            break\n\n        # right\n        if segments_intersect(ex0, ey0, ex1, ey1, x1, y0, x1, y1):\n            segment_intersects = True\n            break\n\n    if segment_intersects:\n        result[i] = True\n\n\n@ngjit\ndef lines_intersect_bounds(",
+  "        ey1 = flat_values[j + 3]\n\n        if (ex0 <= x0 and ex1 <= x0) or (ex0 >= x1 and ex1 >= x1):\n            continue\n\n        # top\n        if segments_intersect(ex0, ey0, ex1, ey1, x0, y1, x1, y1):\n            segment_intersects = True\n            break\n\n        # bottom\n        if segments_intersect(ex0, ey0, ex1, ey1, x0, y0, x1, y0):\n            segment_intersects = True\n            break\n\n        # left\n        if segments_intersect(ex0, ey0, ex1, ey1, x0, y0, x0, y1):\n            segment_intersects = True\n            break\n\n        # right\n        if segments_intersect(ex0, ey0, ex1, ey1, x1, y0, x1, y1):\n            segment_intersects = True\n            break\n\n    if segment_intersects:\n        result[i] = True\n\n\n@ngjit\ndef lines_intersect_bounds(", rule='C01.f')
+V('C01-no-containment-fallback', 'C01', IX, "    if segment_intersects:\n        return\n\n        # Check if a rectangle corners is in rect\n    polygon_offsets = offsets1[start0:stop0 + 1]", "    if segment_intersects:\n        return\n\n    if stop0 - start0 > 1:\n        return\n\n        # Check if a rectangle corners is in rect\n    polygon_offsets = offsets1[start0:stop0 + 1]", rule='C01.h')
+V('C01-fallback-offsets-no-fencepost', 'C01', IX, "    polygon_offsets = offsets1[start0:stop0 + 1]\n    if point_intersects_polygon(x0, y0,", "    polygon_offsets = offsets1[start0:stop0]\n    if point_intersects_polygon(x0, y0,", rule='C01')
+V('C01-silent-mirrored-vertex-test', 'C01', IX, "        if x0 <= x <= x1 and y0 <= y <= y1:\n            vert_in_rect = True\n            break\n\n    if vert_in_rect:\n        result[i] = True\n        return\n\n    # Check for segment that crosses rectangle edge\n    segment_intersects = False\n    for j in range(start, stop - 2, 2):", "        if x1 >= x >= x0 and y1 >= y >= y0:\n            vert_in_rect = True\n            break\n\n    if vert_in_rect:\n        result[i] = True\n        return\n\n    # Check for segment that crosses rectangle edge\n    segment_intersects = False\n    for j in range(start, stop - 3, 2):", expect='silent')
+V('C01-silent-three-edges', 'C01', IX, "        # right\n        if segments_intersect(ex0, ey0, ex1, ey1, x1, y0, x1, y1):\n            segment_intersects = True\n            break\n\n    if segment_intersects:\n        result[i] = True\n\n\n@ngjit\ndef lines_intersect_bounds(", "    if segment_intersects:\n        result[i] = True\n\n\n@ngjit\ndef lines_intersect_bounds(", expect='silent')
+V('C01-silent-stricter-vertex-shortcut', 'C01', IX, "        if x0 <= x <= x1 and y0 <= y <= y1:\n            vert_in_rect = True\n            break\n\n    if vert_in_rect:\n        result[i] = True\n        return\n\n    # Check for segment that crosses rectangle edge\n    segment_intersects = False\n    for j in range(start, stop - 2, 2):", "        if x0 < x < x1 and y0 < y < y1:\n            vert_in_rect = True\n            break\n\n    if vert_in_rect:\n        result[i] = True\n        return\n\n    # Check for segment that crosses rectangle edge\n    segment_intersects = False\n    for j in range(start, stop - 2, 2):", expect='silent')
